@@ -138,6 +138,41 @@ func doDump(P *Program, what string) {
 				fmt.Printf("return@%s %s = %s\n", P.Pos(r.Pos()), desc(v), t.String())
 			}
 		}
+	case what == "rejtable":
+		// prints the reasons of all verification trees in the format of rejections_table.txt (for review, not used at run time)
+		var names []string
+		for n := range rejTrees {
+			names = append(names, n)
+		}
+		sort.Strings(names)
+		for _, n := range names {
+			reasons, missing := treeReasons(P, n)
+			for _, m := range missing {
+				fmt.Fprintln(os.Stderr, "missing root", m)
+			}
+			seen := map[string]bool{}
+			fmt.Printf("# tree %s: roots %s\n", n, strings.Join(rejTrees[n], ", "))
+			for _, r := range reasons {
+				k := r.kind + "\t" + r.text
+				if seen[k] {
+					continue
+				}
+				seen[k] = true
+				fmt.Printf("%s\t%s\t%s\n", n, r.kind, r.text)
+			}
+		}
+	case strings.HasPrefix(what, "rejects:"):
+		// debug: list the rejecting branches of a function (bool verdict at result 0, or error at the last result)
+		f := P.Func(strings.TrimPrefix(what, "rejects:"))
+		if f == nil {
+			fmt.Println("no such function")
+			return
+		}
+		var reasons []rejReason
+		collectRejections(P, f, 0, map[*ssa.Function]bool{}, &reasons)
+		for _, r := range reasons {
+			fmt.Printf("%-55s %-6s %s   @%s\n", r.fn, r.kind, r.text, r.pos)
+		}
 	case strings.HasPrefix(what, "ssa:"):
 		f := P.Func(strings.TrimPrefix(what, "ssa:"))
 		if f == nil {
